@@ -30,7 +30,9 @@ def check(run: Run) -> None:
     run.rule("C07.R4", "methods defined on ObjectStream (stream operators) are exempt from argument filling")
     run.rule("C07.R5", "lambda parameter binding is applied after the inherited known_types (inner scope wins), in a new dict")
     ctx = TermCtx(m, max_depth=2, opaque={"as_literal", "_find_keyword", "resolve_type_vars", "get_type_hints"})
-    fd = m.find_func("_fill_in_default_arguments", in_module=mod)
+    from ..lib import view as _view
+
+    fd = _view(m, m.find_func("_fill_in_default_arguments", in_module=mod), keep=("_find_keyword",))
     fa = ctx.analysis(fd)
     cfg = fa.cfg
     callp = ("param", fd.pos_params[1])
